@@ -64,6 +64,9 @@ def _case(draw, tier):
         dims = [draw(st.integers(1, dmax)) for _ in range(k + 1)]
     elif structure in ("adjoint_pair",):
         p, q = draw(st.integers(1, dmax)), draw(st.integers(1, dmax))
+        want_ident = draw(st.booleans())
+        if want_ident:
+            q = p  # A = 1 + A' needs a square block grid with matching block sizes
         dims = [q, p, q]
     elif structure == "hermitian_square":
         p = draw(st.integers(1, dmax))
@@ -85,6 +88,8 @@ def _case(draw, tier):
     # tie sizes where the structure identifies block spaces
     if structure == "adjoint_pair":
         sizes[2] = sizes[0]
+        if want_ident:
+            sizes[1] = sizes[0]
     elif structure in ("hermitian_square", "recurrence"):
         sizes[1] = sizes[0]
         sizes[2] = sizes[0]
@@ -109,7 +114,7 @@ def _case(draw, tier):
         while sum(orders) > maxtot:
             orders[orders.index(max(orders))] -= 1
         requests.append([draw(st.integers(0, dims[0] - 1)), draw(st.integers(0, dims[-1] - 1))] + orders)
-    ident_pair = structure == "adjoint_pair" and dims[0] == dims[1] and sizes[0] == sizes[1] and draw(st.booleans())
+    ident_pair = structure == "adjoint_pair" and want_ident
     return {
         "ident_pair": ident_pair,
         "structure": structure,
@@ -315,7 +320,8 @@ def check_case(case, enforce_all=False):
     maxo = [max(r[2 + q] for r in case["requests"]) for q in range(n_inf)]
 
     def to_lib(v):
-        return zero if v is None else one if isinstance(v, str) else v
+        # hand the library its own copy: an in-place update of a cached factor element must not reach the oracle
+        return zero if v is None else one if isinstance(v, str) else (v.copy() if isinstance(v, np.ndarray) else v)
 
     kwargs = {"operator": mul} if scalar else {}
 
